@@ -36,6 +36,12 @@ def cells(tier):
                 out.append(cell(f"inline s{size} G={gn} H=A2 cgroup@{'/'.join(at)} cancelG0", sc, MON))
         sc = scen(pool(size), [G["M3/1"], H["A2"], [["cancel_group", "?nope"]], [cgroup("G")]], outcomes=["ret", "exc"])
         out.append(cell(f"s{size} G=M3/1 H=A2 unknown-name cgroup", sc, MON))
+    for size in [1, 2]:
+        for gn in ("A3", "M4/2"):
+            sc = scen(pool(size), [G[gn], H["A2"], [FLUSH, cgroup("G")]], outcomes=["ret"], ecb="plain", ccb="plain")
+            out.append(cell(f"s{size} G={gn} H=A2 flush,cgroup", sc, MON))
+        sc = scen(pool(size), [G["M3/1"], H["A2"], [FLUSH], [CALL]], outcomes=["ret"])
+        out.append(cell(f"s{size} G=M3/1 H=A2 flush call", sc, MON))
     sc = scen(pool(2, "SimpleTaskPool", ecb="plain", ccb="plain"), [[S("G", 3)], [S("H", 2)], [cgroup("G")]], outcomes=["ret"])
     out.append(cell("simple s2 G=S3 H=S2 cgroup", sc, MON))
     if not q:
